@@ -96,4 +96,137 @@ theorem oi_is_sum {U : Nat} {s : PSys} (h : MarketInv U s) (il cl : Bool) :
   rw [← this]
   cases il <;> cases cl <;> simp [fundingStateOf, Quad.get]
 
+
+/-! ### the reports of `increase` / `decrease` carry the settle amounts, and the snapshots are refreshed -/
+
+theorem payForFees_claims {W : Nat} {x : PCtx} {s : PState} {fees : PosFees} :
+    (payForFees W x s fees).2.claimL = fees.claimL ∧ (payForFees W x s fees).2.claimS = fees.claimS := by
+  unfold payForFees
+  repeat' split
+  all_goals exact ⟨rfl, rfl⟩
+
+theorem processCollateral_claims {W : Nat} {x : PCtx} {s0 s : PState} {pnl impact : Int} {diff : Nat}
+    {fees f : PosFees} {ins : Bool} {st : Option Step}
+    (h : processCollateral W x s0 pnl impact diff fees ins = .ok (s, f, st)) :
+    f.claimL = fees.claimL ∧ f.claimS = fees.claimS := by
+  unfold processCollateral at h
+  simp only at h
+  repeat' (split at h)
+  all_goals first | (cases h; done) | skip
+  all_goals
+    (cases h
+     first
+       | exact ⟨rfl, rfl⟩
+       | (have hpf := ‹payForFees W x _ fees = _›
+          have e1 := congrArg (fun q => q.2.claimL) hpf
+          have e2 := congrArg (fun q => q.2.claimS) hpf
+          simp only at e1 e2
+          rw [← e1, ← e2]; exact payForFees_claims))
+
+/-- the fees a decrease starts from are `position_fees` of the position and market BEFORE it. -/
+theorem decrease_fees0 {W U : Nat} {m m' : Market} {c : PerpCfg} {pr : Prices} {p p' : Pos} {sd0 wd : Nat}
+    {fl : DecreaseFlags} {r : DecreaseReport} (h : decrease W U m c pr p sd0 wd fl = .ok (m', p', r)) :
+    ∃ fees0 bc s ins, positionFees W U m c p (pr.collateral p.collLong) r.sizeDelta bc fl.liquidation = .ok fees0 ∧
+      processCollateral W { pr := pr, outLong := p.collLong, pnlLong := p.isLong, same := (p.isLong == p.collLong) }
+        { m := m, rem := p.collateral } r.pnl r.impactValue r.impactDiff fees0 ins = .ok (s, r.fees, r.insolventStep) := by
+  unfold decrease at h
+  expose_do h
+  all_goals
+    (cases h
+     exact ⟨_, _, _, _, ‹positionFees _ _ _ _ _ _ _ _ _ = _›, ‹processCollateral _ _ _ _ _ _ _ _ = _›⟩)
+
+/-- **a decrease settles the position's funding like `FundSys.settle`**: the funding fee charged and
+the claimable amounts credited are the pending amounts between the market's indices and the
+position's snapshots BEFORE the decrease (for the old size), and afterwards the snapshots equal the
+indices. -/
+theorem decrease_is_settle {W U : Nat} {m m' : Market} {c : PerpCfg} {pr : Prices} {p p' : Pos} {sd0 wd : Nat}
+    {fl : DecreaseFlags} {r : DecreaseReport} (h : decrease W U m c pr p sd0 wd fl = .ok (m', p', r)) :
+    unpackFunding W U m.cfg.fundingAdjustment ((fapsPool m p.isLong).amount p.collLong) p.fIdx p.sizeUsd true = some r.fees.fundAmount ∧
+    unpackFunding W U m.cfg.fundingAdjustment (cfapsPool m p.isLong).long p.cIdxL p.sizeUsd false = some r.fees.claimL ∧
+    unpackFunding W U m.cfg.fundingAdjustment (cfapsPool m p.isLong).short p.cIdxS p.sizeUsd false = some r.fees.claimS := by
+  obtain ⟨fees0, bc, s, ins, hf, hproc⟩ := decrease_fees0 h
+  obtain ⟨a, b, c'⟩ := positionFees_funding hf
+  have e0 := processCollateral_fund hproc
+  obtain ⟨e1, e2⟩ := processCollateral_claims hproc
+  rw [e0, e1, e2]
+  exact ⟨a, b, c'⟩
+
+/-- the fees of an increase are `position_fees` of the (initialised) position on the market before. -/
+theorem increaseCore_fees {W U : Nat} {m m' : Market} {c : PerpCfg} {pr : Prices} {p p' : Pos} {ci sd : Nat}
+    {r : IncreaseReport} (h : increaseCore W U m c pr p ci sd = .ok (m', p', r)) :
+    ∃ bc, positionFees W U m c p (pr.collateral p.collLong) sd bc false = .ok r.fees := by
+  unfold increaseCore at h
+  expose_do h
+  all_goals (cases h; exact ⟨_, ‹positionFees _ _ _ _ _ _ _ _ _ = _›⟩)
+
+/-- **an increase settles the position's funding like `FundSys.settle`** (on the initialised
+position: an empty position's snapshots are first set to the indices, so it pays and claims 0). -/
+theorem increase_is_settle {W U : Nat} {m m' : Market} {c : PerpCfg} {pr : Prices} {p0 p' : Pos} {ci sd : Nat}
+    {r : IncreaseReport} (h : increase W U m c pr p0 ci sd = .ok (m', p', r)) :
+    unpackFunding W U m.cfg.fundingAdjustment ((fapsPool m p0.isLong).amount p0.collLong) (initIfEmpty p0 m).fIdx p0.sizeUsd true = some r.fees.fundAmount ∧
+    unpackFunding W U m.cfg.fundingAdjustment (cfapsPool m p0.isLong).long (initIfEmpty p0 m).cIdxL p0.sizeUsd false = some r.fees.claimL ∧
+    unpackFunding W U m.cfg.fundingAdjustment (cfapsPool m p0.isLong).short (initIfEmpty p0 m).cIdxS p0.sizeUsd false = some r.fees.claimS := by
+  unfold increase at h
+  split at h
+  · cases h
+  · obtain ⟨bc, hf⟩ := increaseCore_fees h
+    have e : (initIfEmpty p0 m).isLong = p0.isLong ∧ (initIfEmpty p0 m).collLong = p0.collLong ∧ (initIfEmpty p0 m).sizeUsd = p0.sizeUsd := by
+      unfold initIfEmpty; split <;> exact ⟨rfl, rfl, rfl⟩
+    have := positionFees_funding hf
+    rw [e.1, e.2.1, e.2.2] at this
+    exact this
+
+
+/-- after the bookkeeping tail of a decrease the position's funding snapshots are the market's indices. -/
+theorem settleDecrease_snap {W U : Nat} {m m' : Market} {c : PerpCfg} {pr : Prices} {p p' : Pos}
+    {sd sdt rem out out' : Nat} {rm : Bool} (h : settleDecrease W U m c pr p sd sdt rem out = .ok (m', p', rm, out')) :
+    p'.fIdx = (fapsPool m' p'.isLong).amount p'.collLong ∧ p'.cIdxL = (cfapsPool m' p'.isLong).long ∧
+    p'.cIdxS = (cfapsPool m' p'.isLong).short := by
+  unfold settleDecrease at h
+  expose_do h
+  all_goals
+    (simp only [Except.ok.injEq, Prod.mk.injEq] at h
+     obtain ⟨hm, hp, _, _⟩ := h
+     obtain ⟨_, _, o3, o4, o5, o6⟩ := updateOpenInterest_sameIdx ‹updateOpenInterest _ _ _ _ _ _ = Except.ok _›
+     subst hm; subst hp
+     unfold Pos.syncFunding fapsPool cfapsPool
+     simp only
+     rw [← o3, ← o4, ← o5, ← o6]
+     unfold setCollPool
+     cases p.isLong <;> exact ⟨rfl, rfl, rfl⟩)
+
+/-- **after a decrease the snapshots equal the indices** (which the decrease did not move). -/
+theorem decrease_snap {W U : Nat} {m m' : Market} {c : PerpCfg} {pr : Prices} {p p' : Pos} {sd0 wd : Nat}
+    {fl : DecreaseFlags} {r : DecreaseReport} (h : decrease W U m c pr p sd0 wd fl = .ok (m', p', r)) :
+    p'.fIdx = (fapsPool m p.isLong).amount p.collLong ∧ p'.cIdxL = (cfapsPool m p.isLong).long ∧
+    p'.cIdxS = (cfapsPool m p.isLong).short := by
+  obtain ⟨s, _, _, _, _, _, _, hset, _, _, _⟩ := decrease_parts h
+  obtain ⟨a, b, c'⟩ := settleDecrease_snap hset
+  obtain ⟨_, _, hside, hcl, _⟩ := settleDecrease_pos hset
+  rw [hside, hcl] at a
+  rw [hside] at b c'
+  have t := decrease_tb h
+  unfold fapsPool cfapsPool at *
+  rw [t.f1, t.f2] at a
+  rw [t.c1, t.c2] at b c'
+  exact ⟨a, b, c'⟩
+
+theorem increaseCore_snap {W U : Nat} {m m' : Market} {c : PerpCfg} {pr : Prices} {p p' : Pos} {ci sd : Nat}
+    {r : IncreaseReport} (h : increaseCore W U m c pr p ci sd = .ok (m', p', r)) :
+    p'.fIdx = (fapsPool m p.isLong).amount p.collLong ∧ p'.cIdxL = (cfapsPool m p.isLong).long ∧
+    p'.cIdxS = (cfapsPool m p.isLong).short := by
+  have t := increaseCore_tb h
+  unfold increaseCore at h
+  expose_do h
+  all_goals
+    (cases h
+     obtain ⟨_, _, o3, o4, o5, o6⟩ := updateOpenInterest_sameIdx ‹updateOpenInterest _ _ _ _ _ _ = Except.ok _›
+     have f1 := t.f1; have f2 := t.f2; have c1 := t.c1; have c2 := t.c2
+     unfold Pos.syncFunding fapsPool cfapsPool
+     simp only
+     rw [o3, o4, o5, o6, f1, f2, c1, c2]
+     first
+     | exact ⟨rfl, rfl, rfl⟩
+     | (cases p.isLong <;> exact ⟨rfl, rfl, rfl⟩))
+
 end Gmx.Lem
